@@ -110,6 +110,7 @@ struct Task {
     bool finished_program = false;  // the task's plan-level program ran to its end
     // per-task bookkeeping for monitors
     int api_depth = 0;              // inside an XCM API call
+    int api_eagains = 0;            // EAGAIN results seen by the current outermost API call
     bool api_nonblocking = false;   // ... on a socket in non-blocking mode
     const char *api_name = "";
     void *api_sock = nullptr;
@@ -178,7 +179,8 @@ extern Sim *G;                       // the run in progress (nullptr outside a r
 Task *cur();                         // current simulated task (nullptr on non-simulated threads)
 inline bool in_sim() { return G != nullptr && cur() != nullptr; }
 
-void yield_point(const char *what);  // one kernel step; the scheduler may switch tasks here
+void yield_point(const char *what);
+std::string lib_call_chain();   // wraps.cc: library frames of the current call, by exported symbol (static functions show as '?')  // one kernel step; the scheduler may switch tasks here
 // Park the calling task until pred() holds, the absolute deadline passes (-1: none) or the run
 // is stopping. Returns true iff pred() held.
 bool block_until(std::function<bool()> pred, Time deadline, const char *why, bool hard = false);
